@@ -7,6 +7,7 @@ import (
 	"bytes"
 	"fmt"
 	"strings"
+	"time"
 
 	"verif/harness/hv"
 
@@ -242,5 +243,5 @@ func gen(r *hv.Rng, i int, tier string) (string, hv.Val) {
 }
 
 func main() {
-	hv.Main(&hv.Spec{Prop: "C25", Gen: gen, Impl: impl, NQuick: 6000, NThorough: 300000})
+	hv.Main(&hv.Spec{Prop: "C25", Gen: gen, Impl: impl, NQuick: 6000, NThorough: 300000, Deadline: 2 * time.Second})
 }
